@@ -124,3 +124,42 @@ func VfC20Group() {
 }
 
 func vfI20(a, b bool) bool { return !a || b }
+
+// VfC20Workers: the real worker bookkeeping of a Manager (workerStart,
+// workerDone with its notification channel, WaitForWorkers with its timers)
+// through an arbitrary sequence of K worker starts and exits, followed by a
+// WaitForWorkers: it reports "all workers done" exactly when no worker is
+// running - in particular a notification left over from an earlier moment
+// when the count touched zero must not be taken for the present.
+func VfC20Workers() {
+	m := newManager(context.Background(), "vf", "manager")
+	K := vf.Param("WK")
+	for k := 0; k < K; k++ {
+		if vf.Choose(2) == 0 {
+			m.workerStart()
+		} else {
+			vf.Assume(m.workerCnt.Load() > 0)
+			m.workerDone()
+		}
+	}
+	running := m.workerCnt.Load()
+	done := m.WaitForWorkers(time.Second)
+	vf.Assert(!done || running == 0, "wait-reports-done-while-workers-run")
+	vf.Assert(done || running > 0, "wait-reports-workers-when-none-run")
+	if done {
+		vf.Reach("all-done")
+	} else {
+		vf.Reach("still-running")
+	}
+}
+
+// Timer models: a timer's channel holds its tick from the start (time passes
+// while nobody else runs); Reset does not re-arm it (re-checking an unchanged
+// counter again adds no behaviour); Stop is a no-op.
+func vfNewTimer(d time.Duration) *time.Timer {
+	ch := make(chan time.Time, 1)
+	ch <- time.Time{}
+	return &time.Timer{C: ch}
+}
+func vfTimerStop(t *time.Timer) bool                   { return true }
+func vfTimerReset(t *time.Timer, d time.Duration) bool { return true }
